@@ -15,6 +15,9 @@
 (* the subtree of n without the signature s, so every edit, relocation,      *)
 (* nesting and duplication has its real effect on validity.                  *)
 (*                                                                         *)
+(* Identifiers are atoms here ("r", "a", "x"); the concretiser draws the      *)
+(* strings, also strings that extend one another ("a" and "a-x"), so that a  *)
+(* comparison by containment instead of equality shows.                      *)
 (* Fixed = FALSE: SecurityContext._check_signature as pinned (hands item.id  *)
 (* to the tool and trusts OK).  Fixed = TRUE: the repaired design.           *)
 (***************************************************************************)
